@@ -1,22 +1,22 @@
 CONSTANTS
-  Sessions = {"s1", "s2"}
-  Mailboxes = {"A", "B"}
+  Sessions = {"s1", "s2", "s3"}
+  Mailboxes = {"A"}
   Flags <- OnlyDeleted
-  MaxMsgs = 1
+  MaxMsgs = 2
   MaxUid = 2
   MaxQueue = 2
-  Kinds <- AllKinds
+  Kinds <- KExpunge
   SeqSets <- Sets2
   UidSets <- Sets2
-  UidForms <- Both
+  UidForms <- SeqOnly
   AppendFlags <- PlainOrDeleted
   AppendBoxes <- OnlyA
   StoreOps <- Plus
-  IdleAny = TRUE
-INIT Init
-NEXT Next
+  IdleAny = FALSE
+INIT GenInit
+NEXT GenNext
 CONSTRAINT Bounded
-VIEW CoreView
+VIEW GenView
 INVARIANTS TypeOK RemovedReportedOnce
 PROPERTIES StepSeqNums StepNoExpunge StepShrink StepNoop
 CHECK_DEADLOCK FALSE
